@@ -10,7 +10,7 @@
 //! outside "an archive it wrote".
 //!
 //! Mutants caught (tools/mutant_run.sh H <diff> C22 quick):
-//!   /verif/mutants/C22-into-builder-drops-ingredient-thumbnail.diff
+//!   /verif/mutants/C22-into-builder-loses-json-kind.diff -> `content-differs field=assertions at=[]/kind ...`
 
 use c2pa::{Builder, BuilderIntent, DigitalSourceType, Reader};
 use kit::{assets, defs::{self, Def}, par, sdk, Run};
@@ -325,8 +325,7 @@ impl Tap<'_> {
     fn outcome(&self, c: impl Into<String>) { self.0.outcome(c) }
     fn nontrivial(&self, c: impl Into<String>) { self.0.nontrivial(c) }
     fn violation(&self, k: String, w: String, c: Value) {
-        STATS.get_or_init(Default::default).add(&k, &w);
-        self.0.violation(k, w, c)
+        STATS.get_or_init(Default::default).violation(self.0, 25, k, w, c)
     }
 }
 
@@ -395,7 +394,7 @@ pub fn run(run: &Run, replay: Option<&Value>) {
     run.space("rich definition with icon, thumbnails, tampered ingredient x every other base asset(12) x version(2) x chain length(3)", more.len() as u64, true);
     par::for_each(&cases, |c| judge(run, c));
     par::for_each(&more, |c| judge(run, c));
-    STATS.get_or_init(Default::default).dump("C22");
+    STATS.get_or_init(Default::default).finish(run, "C22");
     run.sample(json!({"case": cases[0].to_json()}));
     run.sample(json!({"case": cases[cases.len() - 1].to_json(), "definition": cases[cases.len() - 1].def.definition(2, None)}));
 }
